@@ -26,12 +26,14 @@ type RC struct {
 	apiList []*FuncInfo
 	events  []*FuncInfo // OnReceive, OnTimeout, OnTransaction, OnNewTransaction
 
-	wrappers  map[*FuncInfo]bool
-	sendSites []*SendSite
-	kindCache map[string][]string
-	epochCl   map[*FuncInfo]bool
-	builderCl map[*FuncInfo]bool
-	troles    *timerRoles
+	wrappers   map[*FuncInfo]bool
+	sendSites  []*SendSite
+	kindCache  map[string][]string
+	epochCl    map[*FuncInfo]bool
+	builderCl  map[*FuncInfo]bool
+	troles     *timerRoles
+	clusterRec map[*FuncInfo]*Analysis
+	verifiers  []*FuncInfo
 }
 
 var apiNames = []string{"Start", "Reset", "OnReceive", "OnTimeout", "OnTransaction", "OnNewTransaction"}
@@ -358,6 +360,17 @@ func (c *RC) guardRule(r *RuleResult, sites []*Site, roots []*FuncInfo, g func(s
 		s := s
 		f := d.ProveAt(s, func(sn *Snap) *Formula { return g(s, sn) })
 		lab := fmt.Sprintf("%s: %s", d.siteLabel(s), r.Doc)
+		if f != nil {
+			// second attempt on the cluster: the function (or, for a single-caller helper, the function it serves) is
+			// walked with its single-caller helpers inline, so facts are not lost to a helper's summary
+			if s2 := c.clusterSite(s); s2 != nil {
+				if f2 := d.ProveAt(s2, func(sn *Snap) *Formula { return g(s2, sn) }); f2 == nil {
+					f = nil
+					lab += " [helpers walked inline from " + s2.Fn.Name + "]"
+					s = s2
+				}
+			}
+		}
 		if f == nil {
 			r.ok(lab + fmt.Sprintf(" — proven on %d path snapshot(s)", len(s.Snaps)))
 		} else {
@@ -365,6 +378,35 @@ func (c *RC) guardRule(r *RuleResult, sites []*Site, roots []*FuncInfo, g func(s
 			r.fail(construct, c.Prog.Pos(s.Node), f.String())
 		}
 	}
+}
+
+// clusterSite re-records the site s by walking the root of its cluster (s.Fn, or the function a single-caller helper
+// serves) with single-caller helpers inline; nil if that gives nothing new.
+func (c *RC) clusterSite(s *Site) *Site {
+	root := s.Fn
+	for hop := 0; hop < 4 && c.A.inlinable(root); hop++ {
+		cs := c.A.callers[root]
+		if len(cs) != 1 || cs[0].Fn == root {
+			break
+		}
+		root = cs[0].Fn
+	}
+	if c.clusterRec == nil {
+		c.clusterRec = map[*FuncInfo]*Analysis{}
+	}
+	rec := c.clusterRec[root]
+	if rec == nil {
+		rec = c.inlineSites(root, false)
+		c.clusterRec[root] = rec
+	}
+	for _, t := range rec.FnSites[s.Fn] {
+		if t.Node == s.Node && t.Kind == s.Kind && t.Loc == s.Loc && t.Callee == s.Callee && len(t.Snaps) > 0 {
+			cp := *t
+			cp.Fn = root
+			return &cp
+		}
+	}
+	return nil
 }
 
 func siteWhat(s *Site) string {
